@@ -57,11 +57,12 @@ def gen_case(seed: int, tier: str, index: int) -> Dict[str, Any]:
                     delays.append(round(rng.choice([0.002, 0.02, 0.05, 0.3, rng.uniform(0, 1.5)]), 4))
             per_bcast.append(delays)
         responders.append({"ip": f"10.0.0.{20 + i}", "ident": ident, "name": name, "replies": per_bcast})
-    filt = rng.choice(["none", "none", "ident", "ident_absent", "address", "address+ident", "address_wrong_ident", "address_nobody"])
+    filt = rng.choice(["none", "none", "ident", "ident_absent", "address", "address+ident", "address_wrong_ident", "address_nobody",
+                       "empty_strings", "empty_ident", "empty_address"])
     more = []
     if rng.random() < 0.4:
         for _ in range(rng.choice([1, 1, 2])):
-            more.append({"filter": rng.choice(["none", "ident", "address", "address+ident", "ident_absent"]), "pick": rng.randrange(100),
+            more.append({"filter": rng.choice(["none", "ident", "address", "address+ident", "ident_absent", "empty_strings"]), "pick": rng.randrange(100),
                          "gap": rng.choice([0.0, 0.3, 2.0])})
         for spec in responders:
             spec["replies"] = spec["replies"] * (1 + len(more)) + [[0.01]] * 4
@@ -137,6 +138,11 @@ async def scenario(world: WorldA) -> None:
             kw["spa_address"] = target[0]
         if f == "address_nobody":
             kw["spa_address"] = "10.0.0.250"
+        # an empty string means "not configured" (the locator itself normalises "" to None): behaves as no filter
+        if f in ("empty_strings", "empty_ident"):
+            kw["spa_identifier"] = ""
+        if f in ("empty_strings", "empty_address"):
+            kw["spa_address"] = ""
         events: List[Any] = []
 
         async def on_event(event, **kwargs):
@@ -166,8 +172,8 @@ async def scenario(world: WorldA) -> None:
 
         # ---- oracle -----------------------------------------------------------------------------------------
         initial, timeout = cfg["initial"], cfg["timeout"]
-        ident_filter = kw.get("spa_identifier")
-        addr_filter = kw.get("spa_address")
+        ident_filter = kw.get("spa_identifier") or None
+        addr_filter = kw.get("spa_address") or None
         has_filter = ident_filter is not None or addr_filter is not None
 
         def passes(ip: str, ident: bytes) -> bool:
